@@ -373,6 +373,102 @@ def _pair_point(pt, evaluator=None):
                        sample=dict(A=ba, B=bb))
 
 
+# ---------------------------------------------------------------- argument types; arguments are not modified
+#
+# "every filter index and DFT width" is an integer: a Python int, a numpy integer scalar, or a 0-d integer
+# array (what np.asarray(512), an entry of an .npz file or a reduction returns).  All of these are accepted by
+# the unchanged tree and give bit-identical results for signed types of 16 bits and more at these widths (probed);
+# narrow unsigned types, whose arithmetic wraps, are not enumerated.  The caller's objects must be what they
+# were after every call (a 0-d array is mutable: an augmented assignment inside the library would change it).
+
+ARG_TYPES = ("int16", "int32", "int64", "intp", "array0d_int16", "array0d_int32", "array0d_int64",
+             "array0d_readonly")
+ARG_WHICH = ("width", "filter", "both")
+ARG_WIDTHS = (2, 3, 16, 17, 64, 255, 512)
+ARG_CALLS = (("trunc",), ("freq", False), ("freq", True))
+ARG_BANKS = PAIR_BANKS + [
+    {"name": "tri", "scaling_function": "linear", "num_filts": 3, "low_hz": 0.0, "sampling_rate": 1000,
+     "analytic": True},
+    {"name": "gammatone", "scaling_function": "bark", "num_filts": 3, "low_hz": 0.0, "sampling_rate": 16000,
+     "max_centered": True, "erb": True},
+    {"name": "gabor", "scaling_function": "linear", "num_filts": 3, "low_hz": 0.0, "sampling_rate": 1000,
+     "erb": True},
+]
+
+
+def make_arg(kind, v):
+    if kind == "int":
+        return int(v)
+    if kind.startswith("array0d_"):
+        if kind == "array0d_readonly":
+            a = np.array(v, dtype=np.int64)
+            a.flags.writeable = False
+            return a
+        return np.array(v, dtype=getattr(np, kind[len("array0d_"):]))
+    return getattr(np, kind)(v)
+
+
+def arg_state(x):
+    return (type(x).__name__, str(getattr(x, "dtype", "")), tuple(getattr(x, "shape", ())),
+            np.asarray(x).tobytes())
+
+
+@c05.quiet
+def _argument_types(pt):
+    ib, which, kind = pt
+    b = ARG_BANKS[ib]
+    r = c05.build(b)
+    if r[0] != "ok":
+        return c05.unconstructible(r)
+    pristine = c05.Pristine(b)
+    tags = dict(c05.bank_tags(b), arg_type=kind, arg=which)
+    viol, seen = [], set()
+    evals = 0
+
+    def bad(what, call, detail, case):
+        key = (what, call)
+        if key not in seen:
+            viol.append(core.violation(dict(tags, what=what, call=call), detail, case))
+        seen.add(key)
+
+    for i in sorted({0, b["num_filts"] - 1}):
+        for w in ARG_WIDTHS:
+            for spec in ARG_CALLS:
+                evals += 1
+                c = [spec[0], i, w] + list(spec[1:])
+                want = c05.do_call(pristine.fresh(), c)
+                if want[0] != "ok":
+                    continue        # judged by agree_<class>
+                ai = make_arg(kind if which in ("filter", "both") else "int", i)
+                aw = make_arg(kind if which in ("width", "both") else "int", w)
+                before = (arg_state(ai), arg_state(aw))
+                bank = pristine.fresh()
+                if spec[0] == "trunc":
+                    got = computers.call(bank.get_truncated_response, ai, aw)
+                else:
+                    got = computers.call(bank.get_frequency_response, ai, aw, spec[1])
+                after = (arg_state(ai), arg_state(aw))
+                case = dict(arg_case=[ib, which, kind], filt=i, width=w, call=list(spec))
+                name = c05.call_name(c)
+                if after != before:
+                    bad("argument_modified", name, "%s with filt_idx %r -> %r, width %r -> %r: the caller's argument "
+                        "object was modified by the call" % (c05.call_text(c), before[0], after[0], before[1],
+                                                             after[1]), case)
+                if got[0] != "ok":
+                    bad("argument_type_exception", name, "%s with %s given as %s raised %s: %s (a Python int is "
+                        "accepted)" % (c05.call_text(c), which, kind, got[1], got[2]), case)
+                elif not c05._bits_equal(c05._parts(got), c05._parts(want)):
+                    bad("argument_type_values", name, "%s with %s given as %s differs from the result for a Python "
+                        "int: %s" % (c05.call_text(c), which, kind,
+                                     c05._close(c05._parts(got), c05._parts(want), 0.0)), case)
+    return core.result(viol, evals=evals, nontrivial_count=evals, obs=(b["name"], which, kind, sorted(map(str, seen))),
+                       sample=dict(bank=b, arg=which, arg_type=kind))
+
+
+def _argument_replay(case):
+    return _argument_types(tuple(case["arg_case"]))
+
+
 def subchecks(tier, seed):
     banks = lattice(tier)
     subs = []
@@ -448,6 +544,17 @@ def subchecks(tier, seed):
         "different classes) alive in ONE freshly forked process, queried A, B, A at the same widths; each "
         "case must satisfy the property's oracle" % len(PAIR_BANKS),
         replay=lambda case: _pair_point(tuple(case["pair"])), chunk=1, kind="histories"))
+    subs.append(core.SubCheck(
+        "argument_types", [(ib, which, kind) for ib in range(len(ARG_BANKS)) for which in ARG_WHICH
+                           for kind in ARG_TYPES], _argument_types,
+        "%d banks (all classes, real / analytic, both gammatone centrings) x first / last filter x widths %r x "
+        "{get_truncated_response, get_frequency_response half False / True} x which argument {width, filter "
+        "index, both} x its type %r: the result is bit-identical to the one for Python ints (each call on a bank "
+        "object of its own), nothing raises, and the caller's argument objects (type, dtype, shape, bytes) are "
+        "what they were before the call. evaluations = calls" % (len(ARG_BANKS), ARG_WIDTHS, ARG_TYPES),
+        axes=dict(arg_type=list(ARG_TYPES), arg=list(ARG_WHICH), width=list(ARG_WIDTHS), banks=ARG_BANKS,
+                  not_enumerated="unsigned and 8-bit types (their arithmetic wraps at these widths)"),
+        replay=_argument_replay, chunk=2))
     hist_banks = c05.history_banks(tier)
     # banks with many narrow filters: only there does get_truncated_response take its genuinely
     # truncated path (wide filters fall back to the whole period), so histories must include them
